@@ -277,8 +277,68 @@ func c04Phase(c *vk.Ctx, r *rand.Rand, natTimeout time.Duration, expiry bool) bo
 			probes = append(probes, probe{id | 1<<56, ci, p, sender.Addr.String(), sender.Addr.IP.To4() == nil})
 		}
 	}
+	// a client that also sends datagrams under ANOTHER valid key keeps its one association and its
+	// one outbound address (those datagrams are not forwarded: the association belongs to its key)
+	for src, ci := range owner {
+		if ci%2 == 1 || len(keys) < 2 {
+			continue
+		}
+		cl := clients[ci]
+		var other KeySpec
+		for _, k := range keys {
+			if k.Material() != cl.Key.Material() {
+				other = k
+			}
+		}
+		if other.ID == "" {
+			continue
+		}
+		tgt := w.targets[0]
+		oid, nid := nextID(c.Batch), nextID(c.Batch)
+		cl.Send(ssUDP(other, randBytes(r, other.Codec().C.SaltSize), tgt.addr(), mkUDPPayload(oid, 0, 0, 24)), serverFor(cl))
+		cl.Send(ssUDP(cl.Key, randBytes(r, cl.Key.Codec().C.SaltSize), tgt.addr(), mkUDPPayload(nid, 0, 0, 24)), serverFor(cl))
+		g, ok := tgt.waitID(nid, udpB)
+		c.Eval("stable|second-key-from-same-client-address")
+		if !ok {
+			c.Violation("C04/valid-datagram-not-forwarded", map[string]any{"client": cl.Addr.String(), "after": "a datagram under another key"})
+			return false
+		}
+		_, port, _ := net.SplitHostPort(g.From)
+		if port != src || len(tgt.findID(oid)) != 0 || len(w.rig.Rec.ByClient(cl.Addr.String())) != 1 {
+			c.Violation("C04/one-client-several-outbound-addresses-in-one-association", map[string]any{"client": cl.Addr.String(), "outbound_before": src, "outbound_after": port, "other_key_datagram_forwarded": len(tgt.findID(oid)) != 0, "associations": len(w.rig.Rec.ByClient(cl.Addr.String()))})
+			return false
+		}
+		c.Count("second_key_same_client_checked", 1)
+	}
+	// an EMPTY datagram to each outbound address is a datagram too: its owner receives a reply
+	// with the sender's address and no payload
+	emptyFrom := tp4.Addr.String()
+	for src := range owner {
+		ua, _ := net.ResolveUDPAddr("udp", "203.0.113.77:"+src)
+		tp4.Send([]byte{}, ua)
+	}
 	if !w.fence(c, r, fc) {
 		return false
+	}
+	for _, ci := range owner {
+		cl := clients[ci]
+		deadline := time.Now().Add(udpB)
+		found := false
+		for !found && time.Now().Before(deadline) {
+			for _, g := range cl.Snap() {
+				if d, err := decodeReply(cl.Key, g.Data); err == nil && len(d.Payload) == 0 && net.JoinHostPort(d.Host, fmt.Sprint(d.Port)) == emptyFrom {
+					found = true
+				}
+			}
+			if !found {
+				time.Sleep(time.Millisecond)
+			}
+		}
+		if !found {
+			c.Violation("C04/empty-datagram-to-outbound-address-not-delivered-to-its-client", map[string]any{"owner": cl.Addr.String(), "sender": emptyFrom})
+			return false
+		}
+		c.Count("empty_unsolicited_delivered", 1)
 	}
 	for _, p := range probes {
 		d, ok := clients[p.owner].waitReply(clients[p.owner].Key, p.id, udpB)
